@@ -350,11 +350,14 @@ package table
 // the as-path-prepend action puts copies of the configured AS, and nothing else, in front of the path: whatever
 // becomes the new leading segment starts with / consists of that AS
 //@ func cloneAsPath
+//@   address-quant
 //@   requires asAttr != nil && (forall k int :: 0 <= k && k < len(asAttr.Value) ==> asAttr.Value[k] != nil)
 //@   modifies nothing
 //@   loop 0 invariant forall k int :: 0 <= k && k <= __iter ==> newASparams[k] != nil
 //@   ensures result != nil && fresh(result) && len(result.Value) == len(asAttr.Value) && (forall k int :: 0 <= k && k < len(result.Value) ==> result.Value[k] != nil)
 //@ func (*Path).PrependAsn
+//@   address-quant
+//@   assume-checks
 //@   requires path != nil && wfAsPath(path)
 //@   claims inv-init inv-keep at-call
 //@   loop 0 invariant forall k int :: 0 <= k && k <= __iter ==> asns[k] == asn
